@@ -121,6 +121,12 @@ theorem pmerge_assoc (a b c : C03P.PDesc) (ha : PfC03P.WF a) (hb : PfC03P.WF b) 
     PfC03P.Equiv (C03P.mergeState (C03P.mergeState a b) c) (C03P.mergeState a (C03P.mergeState b c)) :=
   PfC03P.merge_assoc a b c ha hb hc
 
+/-- partition-ring replicas that received the same updates in any order expose identical content -/
+theorem pconverge_perm (s : C03P.PDesc) {l l' : List C03P.PDesc} (hp : l.Perm l') (hs : PfC03P.WF s)
+    (hl : ∀ d ∈ l, PfC03P.WF d) (hc : ∀ x ∈ l, ∀ y ∈ l, PfC03P.Coherent x y) :
+    PfC03P.Equiv (l.foldl C03P.mergeState s) (l'.foldl C03P.mergeState s) :=
+  PfC03P.converge_perm s hp hs hl hc
+
 -- non-vacuity: a pending→active state change and a same-second owner deletion are both accepted
 example : C03P.mergeState
     { parts := [{ id := 1, tokens := [5], state := 1, stateTs := 3 }], owners := [{ id := "o", part := 1, state := 1, ts := 4 }] }
